@@ -112,7 +112,7 @@ class Framework:
             v = vs[0]
             rp = os.path.join(VERIF, 'replays', self.pid, hashlib.sha256(key.encode()).hexdigest()[:12] + '.json')
             with open(rp, 'w') as fh:
-                json.dump({'property': self.pid, 'key': key, 'what': v['what'], 'case': v.get('case'), 'expect': v.get('expect'), 'count': len(vs)}, fh, indent=1, default=str)
+                json.dump(dump_violation(self.pid, key, v, len(vs)), fh, indent=1, default=str)
             rep = v.get('reproduced')
             if rep is None and v.get('case') is not None and v.get('judge') is not None:
                 # several candidate models may exist for one violation key: report if any reproduces natively
@@ -138,7 +138,7 @@ class Framework:
                             rep = True
                             v = cand
                             with open(rp, 'w') as fh:
-                                json.dump({'property': self.pid, 'key': key, 'what': v['what'], 'case': v.get('case'), 'expect': v.get('expect'), 'count': len(vs)}, fh, indent=1, default=str)
+                                json.dump(dump_violation(self.pid, key, v, len(vs)), fh, indent=1, default=str)
                             break
                 except Exception as e:   # replay infrastructure failure is inconclusive, not a violation
                     rep = None
@@ -218,6 +218,19 @@ class Framework:
         with open(p + '.tmp', 'w') as fh:
             json.dump(ev, fh, indent=1, default=str)
         os.replace(p + '.tmp', p)
+
+
+def dump_violation(pid, key, v, count):
+    d = {'property': pid, 'key': key, 'count': count}
+    for k, x in v.items():
+        if k in ('judge', 'native', 'prio'):
+            continue
+        try:
+            json.dumps(x)
+            d[k] = x
+        except TypeError:
+            d[k] = str(x)
+    return d
 
 
 def load_known(pid):
